@@ -2,6 +2,7 @@ package props
 
 import (
 	"bytes"
+	"fmt"
 	"reflect"
 
 	"github.com/Comcast/gots/v2/packet"
@@ -779,6 +780,44 @@ func c14CheckForge(c c14ForgeCase) engine.Result {
 	return res
 }
 
+// ---- scenario "long-request-lists" -------------------------------------------------------------------------
+
+type c14LongReq struct {
+	Len    int `json:"request_list_length"`
+	Filler int `json:"filler_pid"` // the PID repeated Len-1 times
+	Last   int `json:"last_pid"`   // the PID named once, at the last index
+	First  int `json:"first_packet_payload"`
+}
+
+func c14CheckLongReq(c c14LongReq) engine.Result {
+	var res engine.Result
+	sec, _, _ := c14ForgePair(0)
+	pmtPID := 0x0100
+	list := make([]int, c.Len)
+	for i := range list {
+		list[i] = c.Filler
+	}
+	list[c.Len-1] = c.Last
+	rev := make([]int, c.Len)
+	for i := range rev {
+		rev[i] = list[c.Len-1-i]
+	}
+	var sc c14Scratch
+	o := ref.CarryOpts{PID: pmtPID, CC0: 9, First: c.First}
+	pkts, caps := ref.CarrySection(o, c06Payload(0, ref.PMTBytes(sec, false), 2))
+	reqs := c14MakeReqs(&sec, false, ref.Pointer(0), pmtPID, [][]int{list, rev})
+	c14Filter(&res, "long-request-list", pkts, caps, reqs, &sc)
+	// failure texts must stay readable: name the shape, not 70000 numbers
+	for i := range res.Fail {
+		if len(res.Fail[i].Msg) > 400 {
+			res.Fail[i].Msg = fmt.Sprintf("request list of %d entries (%#x repeated, %#x once at the end / at the start): %s ...", c.Len, c.Filler, c.Last, res.Fail[i].Msg[:200])
+		}
+	}
+	res.Nontrivial = 2
+	res.Outcome(c.Filler == c.Last, c.Len > 65535)
+	return res
+}
+
 func init() {
 	engine.Register(&engine.Property{
 		ID: "C14", Title: "PMT filtering emits exactly the well-formed PMT of the selected streams", Level: "model_checking",
@@ -798,6 +837,31 @@ func init() {
 				Name: "large-pmt",
 				Rule: "case = section padded to section_length in {180,400,1021} (thorough: 14 lengths around the packet limits up to the maximal 1021; 1..~48 streams, last ES_info_length > 255) x 2 content variants (the second with PCR adaptation fields; plus sections of 127, 128 and 201 descriptor-less streams); RemoveElementaryStreams on the large tables and on tables of 15..17, 31..34, 63..66 streams: every single stream, every pair (i, n-1-i) in both orders, even/odd positions, halves, all, reversed x pointer_field {0,1,100} x last-packet style; per case every first-packet size 1..184 x second packet full/7 bytes x request lists (all, none/empty, absent, PAT PID, first, last, reversed pair, present+absent, every 5th single stream and its complement, even, odd, first half, all but last, PMT PID + odd); oracle as in 'filter'; non-trivial = each (case, split, request)",
 				Gen:  c14GenBig, Check: witnessEnum(c14CheckBig, witnessPSI), Batch: 1,
+			},
+			&engine.Enum[c14LongReq]{
+				Name: "long-request-lists",
+				Rule: "a three-stream PMT (first packet payload 184 / 60) x request lists of L entries for L in {2, 255..257, 1000, 32767..32769, 65534..65537, 70000, 131073} (thorough also every 2^k and 2^k+-1 up to 2^18): one PID repeated L-1 times (each of the three streams, an absent PID, the PAT PID) and another of the three streams named ONCE at the last index - and the same list reversed; judged as in 'filter' against the reference filter (a stream named anywhere in the list is kept, whatever its index)",
+				Gen: func(r *engine.Run, emit func(c14LongReq)) {
+					ls := []int{2, 255, 256, 257, 1000, 32767, 32768, 32769, 65534, 65535, 65536, 65537, 70000, 131073}
+					if r.Thorough() {
+						for k := 2; k <= 18; k++ {
+							ls = append(ls, 1<<k-1, 1<<k, 1<<k+1)
+						}
+					}
+					for _, l := range ls {
+						for _, filler := range []int{0x101, 0x102, 0x103, c14Absent[0], 0} {
+							for _, last := range []int{0x101, 0x102, 0x103} {
+								for _, f := range []int{184, 60} {
+									if f == 60 && l > 1000 && l%2 == 0 {
+										continue
+									}
+									emit(c14LongReq{l, filler, last, f})
+								}
+							}
+						}
+					}
+				},
+				Check: c14CheckLongReq, Batch: 4,
 			},
 			&engine.Enum[c14ForgeCase]{
 				Name: "crc-collisions",
